@@ -18,8 +18,9 @@ import (
 	"fmt"
 	"net/http"
 
+	apierrors "k8s.io/apimachinery/pkg/api/errors"
 	"k8s.io/apimachinery/pkg/runtime"
-	genericapifilters "k8s.io/apiserver/pkg/endpoints/filters"
+	"k8s.io/apimachinery/pkg/runtime/schema"
 	"k8s.io/apiserver/pkg/endpoints/handlers/responsewriters"
 	genericapirequest "k8s.io/apiserver/pkg/endpoints/request"
 
@@ -58,4 +59,18 @@ func WithImpersonator(handler http.Handler) http.Handler {
 	})
 }
 
-var WithRequestInfo = genericapifilters.WithRequestInfo
+// WithRequestInfo attaches a RequestInfo to the context. It is genericapifilters.WithRequestInfo except that a request
+// the resolver refuses (e.g. GET /api/v1/proxy) is answered with a Status, like every other request the gateway
+// terminates, instead of text/plain.
+func WithRequestInfo(handler http.Handler, resolver genericapirequest.RequestInfoResolver, s runtime.NegotiatedSerializer) http.Handler {
+	return http.HandlerFunc(func(w http.ResponseWriter, req *http.Request) {
+		ctx := req.Context()
+		info, err := resolver.NewRequestInfo(req)
+		if err != nil {
+			responsewriters.ErrorNegotiated(apierrors.NewInternalError(fmt.Errorf("failed to create RequestInfo: %v", err)), s, schema.GroupVersion{}, w, req)
+			return
+		}
+		req = req.WithContext(genericapirequest.WithRequestInfo(ctx, info))
+		handler.ServeHTTP(w, req)
+	})
+}
